@@ -303,7 +303,8 @@ class TRIAD:
         self.representation: str = representation
         self.frame: str = frame
         self._guard_clauses_parameters()
-        self._guard_clauses_vectors(w1, w2, v1, v2)
+        # v2 may be a magnetic dip angle (float, in degrees): it is validated by _set_second_triad_reference
+        self._guard_clauses_vectors(w1, w2, v1, None if isinstance(v2, float) else v2)
         # Input values
         self.w1: np.ndarray = np.copy(w1) if isinstance(w1, (list, np.ndarray)) else None
         self.w2: np.ndarray = np.copy(w2) if isinstance(w2, (list, np.ndarray)) else None
